@@ -73,7 +73,12 @@ pub struct RunOpts {
 }
 
 fn render_log(rep: &CaseReport) -> Vec<String> {
-    rep.events.iter().map(render).collect()
+    // the order in which the runtime drops its tasks at the very end is not part of the execution
+    rep.events
+        .iter()
+        .take_while(|e| !matches!(&e.ev, crate::events::Ev::Note(n) if n == "teardown"))
+        .map(render)
+        .collect()
 }
 
 pub fn run_plan(plan: Vec<PlanItem>, opts: &RunOpts) -> J {
